@@ -109,6 +109,137 @@ thread_local! {
 pub struct Xen;
 pub static XEN: Xen = Xen;
 
+
+/// S-xen/concurrent: two threads use one on-demand grant region at the same time, each inside its
+/// own half (different pages), switched at every map / unmap ioctl, mmap and munmap. Each access
+/// must run inside a window over its own pages: data lands where the model says, reads return the
+/// thread's own bytes, the simulated MMU sees no stray access, and nothing stays mapped or granted.
+pub struct XenConc;
+pub static XEN_CONC: XenConc = XenConc;
+
+impl Scenario for XenConc {
+    fn name(&self) -> &'static str {
+        "S-xen/concurrent"
+    }
+
+    fn run(&self) -> RunInfo {
+        use crate::sim::{run_concurrent, Policy};
+        use std::cell::RefCell;
+        cx().mode = Mode::Setup;
+        cx().cfg.anon_atomics = true;
+        let c = cx();
+        let size = 4 * 4096usize;
+        let base = 0x1000 * (1 + c.a(64) as u64);
+        c.sys.xen = Some(XenDev::new());
+        c.sys.redzone = true;
+        c.sys.mmu_on = true;
+        c.sys.null_range = Some((0, size + 4096));
+        let model0: Vec<u8> = (0..size).map(pat).collect();
+        cx().sys.xen.as_ref().unwrap().pwrite(base, &model0);
+        let region = in_mode(Mode::Setup, || build_region(Kind::GrantOnDemand, base, size)).expect("xen region");
+        let model = RefCell::new(model0);
+        // programs: (write?, offset inside the half, length, object form?)
+        let gen_prog = |half: usize| -> Vec<(bool, usize, usize, bool)> {
+            (0..1 + cx().a(3))
+                .map(|_| {
+                    let obj = cx().a(3) == 0;
+                    let n = if obj { 8 } else { 1 + cx().a(300) as usize };
+                    let off = match cx().a(5) {
+                        0 => 0,
+                        1 => 4096 - n / 2 - 1,
+                        2 => 8192 - n,
+                        _ => cx().a((8192 - n) as u32) as usize,
+                    };
+                    (cx().a(3) != 0, half * 8192 + off, n, obj)
+                })
+                .collect()
+        };
+        let progs = [gen_prog(0), gen_prog(1)];
+        {
+            let c = cx();
+            c.cfg.yield_sys = true;
+            c.sched.budget = 20_000;
+            c.sched.policy = match c.a(5) {
+                0 => Policy::Uniform,
+                1 => Policy::Sticky(1, 2),
+                2 => Policy::Sticky(4, 5),
+                3 => Policy::Pct(1),
+                _ => Policy::Pct(2),
+            };
+        }
+        let log = RefCell::new(Vec::<String>::new());
+        let bad = RefCell::new(Vec::<(String, String, String)>::new());
+        {
+            let mut bodies: Vec<Box<dyn FnOnce() + '_>> = Vec::new();
+            for (ai, prog) in progs.iter().enumerate() {
+                let (region, model, log, bad) = (&region, &model, &log, &bad);
+                bodies.push(Box::new(move || {
+                    for (k, &(write, off, n, obj)) in prog.iter().enumerate() {
+                        let at = MemoryRegionAddress(off as u64);
+                        cx().op_begin((ai * 10 + k) as u64);
+                        if write {
+                            let data: Vec<u8> = (0..n).map(|i| pat(i + 17 * (ai + 1) + 5 * k) ^ 0xA5).collect();
+                            let r = if obj { res(catch(|| region.write_obj(mk::<u64>(&data), at))).map(|r| r.map(|()| n)) } else { res(catch(|| region.write(&data, at))) };
+                            let desc = format!("thread {}: {}(len {}, {})", ai, if obj { "write_obj::<u64>" } else { "write" }, n, off);
+                            match r {
+                                Ok(Ok(m)) if m == n => model.borrow_mut()[off..off + n].copy_from_slice(&data),
+                                other => bad.borrow_mut().push(("C17/result".into(), format!("{} in its own half", if obj { "write_obj" } else { "write" }), format!("{} returned {:?}", desc, other.map(|x| x.map_err(|e| format!("{:?}", e)))))),
+                            }
+                            log.borrow_mut().push(desc);
+                        } else {
+                            let mut buf = vec![0u8; n];
+                            let r = if obj { res(catch(|| region.read_obj::<u64>(at))).map(|r| r.map(|v| { buf.copy_from_slice(&bytes_of(&v)); n })) } else { res(catch(|| region.read(&mut buf, at))) };
+                            let desc = format!("thread {}: {}(len {}, {})", ai, if obj { "read_obj::<u64>" } else { "read" }, n, off);
+                            let want = model.borrow()[off..off + n].to_vec();
+                            match r {
+                                Ok(Ok(m)) if m == n && buf == want => {}
+                                Ok(Ok(m)) if m == n => bad.borrow_mut().push(("C17/data".into(), "a thread read bytes that are not its own".into(), format!("{} returned bytes that differ from what this thread's half of the guest memory holds (first difference at +{})", desc, buf.iter().zip(want.iter()).position(|(a, b)| a != b).unwrap_or(0)))),
+                                other => bad.borrow_mut().push(("C17/result".into(), format!("{} in its own half", if obj { "read_obj" } else { "read" }), format!("{} returned {:?}", desc, other.map(|x| x.map_err(|e| format!("{:?}", e)))))),
+                            }
+                            log.borrow_mut().push(desc);
+                        }
+                        cx().op_end((ai * 10 + k) as u64, 0);
+                    }
+                }));
+            }
+            run_concurrent(bodies);
+        }
+        cx().mode = Mode::Setup;
+        cx().cfg.yield_sys = false;
+        let c = cx();
+        c.count_n("sim.steps", c.sched.steps);
+        let inop = c.sched.inop_switches;
+        let line = format!("GrantOnDemand region [{:#x},+{}) used by two threads: {}", base, size, log.borrow().join(" | "));
+        for (class, fp, msg) in bad.borrow().iter() {
+            cx().violate("C17", class, fp.clone(), format!("{}: {}", line, msg));
+        }
+        let faults = std::mem::take(&mut cx().sys.mmu_faults);
+        if let Some(f) = faults.first() {
+            cx().violate("C17", "C17/mmu", "access outside its temporary mapping with two threads on one region".into(), format!("{}: {}", line, f));
+        }
+        let backing = cx().sys.xen.as_ref().unwrap().pread(base, size);
+        if cx().violations.is_empty() && backing != *model.borrow() {
+            let i = backing.iter().zip(model.borrow().iter()).position(|(x, y)| x != y).unwrap_or(0);
+            cx().violate("C17", "C17/data", "guest bytes with two threads on one region".into(), format!("{}: guest byte {} is {:#04x}, expected {:#04x} (an access ran inside a window over other pages)", line, i, backing[i], model.borrow()[i]));
+        }
+        let (grants, windows) = (cx().sys.xen.as_ref().unwrap().live_grants(), cx().sys.live_count());
+        if cx().violations.is_empty() && (!grants.is_empty() || windows != 0) {
+            cx().violate("C17", "C17/window-leak", "mapping or grant left with two threads on one region".into(), format!("{}: {} mapping(s) live, grants {:x?}", line, windows, grants));
+        }
+        cx().mode = Mode::Actor;
+        let r = catch(|| drop(region));
+        cx().mode = Mode::Setup;
+        if let OpOutcome::Panic(m) = r {
+            cx().violate("C17", "C17/panic", "panic dropping the region".into(), m);
+        }
+        cx().sys.anomalies.clear();
+        let desc = if cx().trace { Some(J::obj().set("region", J::s("GrantOnDemand, two threads")).set("history", J::strs(log.borrow().clone())).set("device_log", J::strs(cx().sys.xen.as_ref().unwrap().log.iter().take(40).cloned()))) } else { None };
+        cx().sys.xen = None;
+        cx().mode = Mode::Oracle;
+        RunInfo { nontrivial: inop > 0, desc, cell: None }
+    }
+}
+
 fn gen_off(size: usize) -> usize {
     let c = cx();
     match c.a(8) {
